@@ -109,7 +109,7 @@ def certificate(ctx, N, W, S, lam, rho0, rec, case, cb):
 
 def run(ctx):
     rng = np.random.default_rng(ctx.seed)
-    ctx.proof_layer(allowed_axioms=R_AX, coq_deps=["Corr/RunAdmm"], gen=["unique_values", "solver"])
+    ctx.proof_layer(allowed_axioms=R_AX, coq_deps=["Corr/RunAdmm"], gen=["unique_values", "solver", "solver_loop"])
     core.note_drift(ctx, ANCHORS)
     cov = core.LineCoverage()
     hist = {"NW": {}, "iterations_max": 0, "not_converged": 0, "lam": {}, "cov": {}}
@@ -177,6 +177,37 @@ def run(ctx):
                     if n <= (6 if not ctx.thorough else 9) and its <= 120 and len(loop_lits["loop"]) + len(loop_lits["loop_cb"]) < (14 if not ctx.thorough else 60):
                         lit = admm_tie.loop_case_literal(N, W, S, lam, rho, 1000, 1e-6, 1e-6, rec)
                         loop_lits["loop_cb" if cb else "loop"].append((lit, case))
+        # (c') the covariance in other array forms - integer and float32 dtypes (integer-valued entries, so the value is
+        # the same in every dtype), Fortran order, a non-contiguous view, a read-only array: the certificate must hold for
+        # the VALUES whatever the container
+        form_shapes = [(2, 2), (3, 2), (2, 3), (1, 4)] + ([(4, 2), (2, 5)] if ctx.thorough else [])
+        for fi, (N, W) in enumerate(form_shapes):
+            n = N * W
+            A = rng.integers(-2, 3, size=(n, n + 1 + fi % 2))
+            Sv = (A @ A.T + (fi % 3) * np.eye(n, dtype=np.int64)).astype(np.int64)
+            for form in ("int64", "int32", "float32", "fortran", "strided", "readonly"):
+                if form in ("int64", "int32", "float32"):
+                    Sf = Sv.astype(form)
+                elif form == "fortran":
+                    Sf = np.asfortranarray(Sv.astype(np.float64))
+                elif form == "strided":
+                    big = np.zeros((2 * n, 2 * n))
+                    big[::2, ::2] = Sv
+                    Sf = big[::2, ::2]
+                else:
+                    Sf = Sv.astype(np.float64)
+                    Sf.setflags(write=False)
+                lam = [0.11, 0.0, 1.0][fi % 3]
+                case = {"N": N, "W": W, "cov": "integer-valued as " + form, "lam": lam, "lam_value": lam, "rho": 1.0, "callback": False,
+                        "S_hex": [[float(v).hex() for v in row] for row in Sv], "S_form": form}
+                rec = None
+                with ctx.guard("admm_optimize_theta", case):
+                    rec = admm_tie.record_solver_run(N, W, Sf, lam, rho=1.0, rho_update=None)
+                ctx.count("solver-run:array-form")
+                if rec is None or rec["exit"] is None:
+                    continue
+                hist["cov"][form] = hist["cov"].get(form, 0) + 1
+                certificate(ctx, N, W, Sv.astype(np.float64), lam, 1.0, rec, case, None)
         # (d) unconditional clause: rho = 1, no callback, eig(S) in [0.25, 4], lambda in [0,1]
         worst = 0
         for i in range(ctx.budget(25, 150)):
